@@ -12,9 +12,9 @@ LEVEL = "proof"
 INF = float("inf")
 
 
-def gen_case(rng, mode):
+def gen_case(rng, mode, removal_pattern=None):
     R = 5e-6
-    ncell = rng.randint(1, 3)
+    ncell = rng.randint(1, 3) if removal_pattern is None else len(removal_pattern)
     cts = []; cells = []
     for i in range(ncell):
         cls = rng.choice([0, 0, 0, 1, 2, 3, 4]) if mode == 0 else rng.choice([0, 0, 2, 3])
@@ -27,6 +27,10 @@ def gen_case(rng, mode):
         avgdiv = rng.choice([INF, V * rng.uniform(0.7, 1.5), V * 1.02])
         stddiv = 0.0 if rng.random() < 0.4 else (V * rng.uniform(0.01, 0.2))
         minvol = rng.choice([0.0, V * 0.5, V * rng.uniform(0.8, 0.99), V * 1e-3])
+        if removal_pattern is not None:
+            # several cells fall below their minimum in the SAME iteration (one 0.9 scaling: 0.729 V), at chosen list positions
+            minvol = V * 0.9 if removal_pattern[i] else V * 0.3
+            avggr = 0.0; stdgr = 0.0; avgdiv = INF; cls = 0
         Pmax = rng.choice([INF, 2.5e3, 10.0, 1e-2])
         P0 = rng.choice([0.0, 0.0, 50.0, -50.0, 500.0])
         if mode == 1:
@@ -40,6 +44,8 @@ def gen_case(rng, mode):
     scales = []
     for k in range(niter):
         r = rng.random()
+        if removal_pattern is not None:
+            scales.append(0.9 if k == 3 else 1.0); continue
         if mode == 0:
             s = 1.0 if r < 0.3 else rng.uniform(0.93, 1.07)
             if r > 0.97:
@@ -111,7 +117,9 @@ def run(ck):
     impl = vlib.build_driver("cellcycle", wrap_clock=True, extra_srcs=("cycle_wrap.cpp",), wraps=CYCLE_WRAPS)
     model = vlib.ocaml_model()
     rng = random.Random(ck.seed * 4409 + 4)
-    cases = [gen_case(rng, 0) for _ in range(n0)] + [gen_case(rng, 1) for _ in range(n1)]
+    # several removals in one iteration, at the front, the back, next to each other, all at once
+    patterns = [(1, 0, 1), (0, 1, 1), (1, 1, 0, 1), (1, 1, 1)]
+    cases = [gen_case(rng, 1, removal_pattern=pt) for pt in patterns] + [gen_case(rng, 0) for _ in range(n0)] + [gen_case(rng, 1) for _ in range(n1)]
     outs, crashes = vlib.run_lines_resilient([impl], [c["line"] for c in cases], env={"OMP_NUM_THREADS": "1"}, timeout=1500)
     for bad, info in crashes[:2]:
         ck.report(dict(input=cases[bad]["line"][:3000], error=info), oracle="driver_crash", what="cell-cycle driver died: " + info[:200])
